@@ -251,6 +251,35 @@ fn main() {
           let _ = tokio::time::timeout(Duration::from_secs(5), ctx.term()).await;
           got == acc
         }
+        "GO" => {
+          // many tasks calling get_option() on a quiet socket: does any call fail?
+          let s = ctx.socket(SocketType::Pull).unwrap();
+          let _ = util::bind_fresh(&s, util::Transport::Tcp).await;
+          let mut hs = vec![];
+          for _ in 0..32 {
+            let p = s.clone();
+            hs.push(tokio::spawn(async move {
+              let mut f = 0;
+              for _ in 0..3000 {
+                if let Err(e) = p.get_option(opt::RCVHWM).await {
+                  if f == 0 {
+                    println!("get_option failed: {:?}", e);
+                  }
+                  f += 1;
+                }
+                tokio::task::yield_now().await;
+              }
+              f
+            }));
+          }
+          let mut total = 0;
+          for h in hs {
+            total += h.await.unwrap_or(0);
+          }
+          println!("failures: {} of 96000 calls", total);
+          let _ = tokio::time::timeout(Duration::from_secs(5), ctx.term()).await;
+          total == 0
+        }
         "Q" => {
           // does ReadyPipeQueue::close() release a blocked pop() while a sender clone is still alive?
           let q = std::sync::Arc::new(rzmq::verif::Rpq::<u32>::new(4));
